@@ -638,7 +638,9 @@ func TestVerifC12(t *testing.T) {
 		for i := 0; i < n; i++ {
 			c12Run(t, rec, stats, c12Random(rng), i)
 		}
-		if stats.mergeWrites == 0 || stats.exactWrites == 0 || stats.sameNodes == 0 || stats.shiftNodes == 0 || stats.calls == stats.writes {
+		// vacuity is judged on the INPUTS only (unchanged files, shifting cpusets, updater calls made at all): what the
+		// code wrote is for TLC to judge, a code defect must never turn into a "vacuous run"
+		if stats.sameNodes == 0 || stats.shiftNodes == 0 || stats.calls == 0 {
 			t.Fatalf("c12: vacuous run %+v", *stats)
 		}
 	}
